@@ -12,7 +12,7 @@ package main
 //         The Lean specification `spec.c01e.decode` is evaluated on the same pairs (`holds`), and
 //   (iii) SPEC VALIDATION: `spec.c01e.decode` must agree with V8 on every literal seen (input or output), both modes
 //         — a disagreement is a finding of kind "diff" (the specification is wrong, not the code);
-//   (iv)  the `</script` guard: the output literal contains `</script` (any letter case) only if a backslash follows
+//   (iv)  the `</script` / `<!--` guards: the output literal contains neither `</script` (any letter case) nor `<!--`
 //         within 8 bytes of some `<` of the input (the guard works on raw text) — otherwise "fail".
 //
 // Call sites: `x=<lit>` with Version 0 (allowTemplate) and Version 5 (no template); allowTemplate=false sites:
@@ -255,20 +255,6 @@ func c01eShow(v []int, ok bool) string {
 	return fmt.Sprint(v)
 }
 
-// c01eEscNearLt: some `<` of the text is followed within 8 bytes by a backslash (the `</script>` guard looks at raw text only).
-func c01eEscNearLt(b []byte) bool {
-	for i, c := range b {
-		if c == '<' {
-			for k := i + 1; k < len(b) && k <= i+8; k++ {
-				if b[k] == '\\' {
-					return true
-				}
-			}
-		}
-	}
-	return false
-}
-
 // c01eEval: correspondence, property (V8 + spec) and spec validation for a batch of cases that were run.
 func c01eEval(ctx *Ctx, st *h.Stage, cases []c01eCase) error {
 	// distinct literals
@@ -395,8 +381,8 @@ func c01eEval(ctx *Ctx, st *h.Stage, cases []c01eCase) error {
 			st.Tag("input=invalid-js(outside the property)")
 		}
 		// (iv)
-		if bytes.Contains(bytes.ToLower(c.out), []byte("</script")) && !c01eEscNearLt(c.lit) {
-			ctx.R.Add(h.Finding{Stage: st.Name, Kind: "fail", What: "output literal contains </script (any letter case) although no escape sequence follows a < of the input", Input: c.key(), Hex: hex.EncodeToString(c.lit), Config: cfg, Impl: h.Q(c.out)})
+		if lo := bytes.ToLower(c.out); bytes.Contains(lo, []byte("</script")) || bytes.Contains(lo, []byte("<!--")) {
+			ctx.R.Add(h.Finding{Stage: st.Name, Kind: "fail", What: "output literal contains </script (any letter case) or <!--", Input: c.key(), Hex: hex.EncodeToString(c.lit), Config: cfg, Impl: h.Q(c.out)})
 		}
 	}
 	return nil
